@@ -313,6 +313,23 @@ func run(tier string, shard, nsh int, res *ev.Result) {
 				}
 			}
 		})
+		jobs = append(jobs, func(lc *local) { // pairs of targets whose names / unit ids concatenate ambiguously
+			var targets []F
+			for _, s := range []string{"h:50", "h:502", "h:5021", "h_1", "h", "h 1"} {
+				for _, u := range []uint8{0, 1, 2, 10, 11, 12, 21, 210} {
+					targets = append(targets, F{Server: s, Unit: u})
+				}
+			}
+			for _, tl := range [][2]uint8{{5, 0}, {14, 0}} {
+				for _, ta := range targets {
+					for _, tb := range targets {
+						a := F{ta.Server, ta.Unit, 10, tl[0], 0, tl[1]}
+						b := F{tb.Server, tb.Unit, 12, tl[0], 0, tl[1]}
+						eval(Case{Target: target, Fields: []F{a, b}}, res, lc)
+					}
+				}
+			}
+		})
 		for i0 := 0; i0 < len(pairA); i0 += 30 {
 			i0 := i0
 			jobs = append(jobs, func(lc *local) { // pairs
